@@ -965,9 +965,11 @@ std::vector<std::string> base_args(const std::string& schema, long outv)
     return a;
 }
 
-const Ref& reference(const std::string& schema, long outv)
+std::vector<std::string> argv_variant(long v, const std::string& schema, long outv);
+
+const Ref& reference(const std::string& schema, long outv, long argv_v = 0)
 {
-    std::string key = schema + "#" + std::to_string(outv);
+    std::string key = schema + "#" + std::to_string(outv) + "#" + std::to_string(argv_v);
     auto it = g_ref.find(key);
     if(it != g_ref.end()) return it->second;
     auto saved = g.fs;
@@ -978,7 +980,7 @@ const Ref& reference(const std::string& schema, long outv)
         fs_reset();
         g.fs["/sim/in/" + schema].data = g_corpus.files[schema];
         perturb_heap(round ? 0x5eed + sim::fnv1a(key.data(), key.size()) : 0);
-        RunOutcome ro = run_sbeppc(base_args(schema, outv), {}, -1, -1);
+        RunOutcome ro = run_sbeppc(argv_variant(argv_v, schema, outv), {}, -1, -1);
         std::map<std::string, std::string> files;
         for(auto& kv : g.fs)
             if(!kv.second.dir && kv.first.rfind("/sim/in/", 0) != 0) files[kv.first] = kv.second.data;
@@ -1533,7 +1535,8 @@ Result exec_plan(const Plan& plan)
             const Ref* ref = nullptr;
             if(is_c20)
             {
-                ref = &reference(schema, outv);
+                // the reference of exactly this command line (custom schema name / injected include change the files)
+                ref = &reference(schema, outv, argv_v < 3 ? argv_v : 0);
                 if(!ref->ok)
                 {
                     if(ref->why.find("different files") != std::string::npos)
@@ -1641,11 +1644,6 @@ Result exec_plan(const Plan& plan)
                     for(auto& kv : ref->files)
                     {
                         std::string path = kv.first;
-                        if(argv_v == 1)
-                        {
-                            // custom schema name changes the directory name; compare only existence of some output
-                            continue;
-                        }
                         auto it = g.fs.find(path);
                         const std::string* want = &kv.second;
                         if(it == g.fs.end())
@@ -1653,7 +1651,6 @@ Result exec_plan(const Plan& plan)
                             fail("exit0-file-missing", "exit 0 but " + path + " does not exist" + ctx);
                             break;
                         }
-                        if(argv_v == 2) continue; // injected include changes schema.hpp; existence only
                         if(it->second.data != *want)
                         {
                             const bool faulted = !ro.hard.empty() || !ro.soft.empty();
